@@ -141,7 +141,7 @@ class C01(Plan):
                          40 if tier == "quick" else 200)
         wide_cases(g, WIDE_E, "mut", every=(8 if tier == "quick" else 1))
         wide_cases(g, WIDE_U8, "io", elem="u8", suffix=(), every=(4 if tier == "quick" else 1))
-        # the same families with a 96-byte element type (code paths gated on size_of::<T>())
+        # the same families with a 256-byte element type (code paths gated on size_of::<T>())
         for fam in (fam_push, fam_pop, fam_index1, fam_swap, fam_bulk, fam_mut_views):
             g.one_step(Ns(tier, [0, 1, 2, 3, 4, 5, 6, 7], [0, 1, 2, 3, 4, 5, 6, 7, 8]), [3], fam, elem="B")
         wide_cases(g, [9, 13, 17, 33, 100], "mut", elem="B", every=(3 if tier == "quick" else 1))
